@@ -1540,3 +1540,116 @@ Proof.
     + apply map_ext. intros k. rewrite (state_at_shift c g s0 ps (S k)), (status_at_shift c g s0 ps k), E. reflexivity.
     + intros k Hk. specialize (H (S k) (proj1 (Nat.succ_lt_mono k n) Hk)). rewrite status_at_shift, E in H. exact H.
 Qed.
+
+(** * Part H: a concrete fair and (eventually) quiet history -- the hypotheses of
+    the termination theorem are satisfiable *)
+Definition ex_g : graph :=
+  [ {| parents := []; children := [1]; scheduled := true; has_restart := true; rlimit := 1 |};
+    {| parents := [0]; children := []; scheduled := true; has_restart := false; rlimit := 0 |} ].
+Definition ex_c : cfg := {| throttle := 1; attempts := 1; dry := false |}.
+Definition ex_pin (reps : list (nat * option State)) : pin :=
+  {| cancel_req := false; qcode := QOK; reports := reps; psubs := [true] |}.
+(** submit 0; hardware failure of 0 (re-queued and resubmitted); 0 times out (restart 1 of 1);
+    0 finishes (1 is submitted); 1 finishes; afterwards the scheduler has nothing to say *)
+Definition ex_ps (n : nat) : pin :=
+  match n with
+  | 0 => ex_pin []
+  | 1 => ex_pin [(0, Some HWFAILURE)]
+  | 2 => ex_pin [(0, Some TIMEDOUT)]
+  | 3 => ex_pin [(0, Some FINISHED)]
+  | 4 => ex_pin [(1, Some FINISHED)]
+  | _ => ex_pin []
+  end.
+Notation ex_state := (state_at ex_c ex_g (init ex_g) ex_ps).
+
+Lemma ex_wf : WF ex_g.
+Proof. apply wf_graph_WF. vm_compute. reflexivity. Qed.
+
+Lemma ex_fix : fst (poll ex_c ex_g (ex_state 6) (ex_pin [])) = ex_state 6.
+Proof. vm_compute. reflexivity. Qed.
+
+Lemma state_at_S c g s ps n : state_at c g s ps (S n) = fst (poll c g (state_at c g s ps n) (ps n)).
+Proof. reflexivity. Qed.
+
+Lemma ex_ps_tail n : ex_ps (6 + n) = ex_pin [].
+Proof. reflexivity. Qed.
+
+Lemma ex_tail n : ex_state (6 + n) = ex_state 6 /\ ex_ps (6 + n) = ex_pin [].
+Proof.
+  split; [|apply ex_ps_tail]. induction n as [|n IH]; [reflexivity|].
+  replace (6 + S n) with (S (6 + n)) by lia.
+  rewrite state_at_S, IH, ex_ps_tail. exact ex_fix.
+Qed.
+
+Ltac ex_cases n := destruct n as [|[|[|[|[|[|n]]]]]];
+  [| | | | | | change (S (S (S (S (S (S n)))))) with (6 + n) in * ].
+
+Lemma ex_valid : valid_stream ex_c ex_g (init ex_g) ex_ps.
+Proof.
+  intros n. ex_cases n; [vm_compute; reflexivity ..|].
+  destruct (ex_tail n) as [E1 E2]. rewrite E1, E2. vm_compute. reflexivity.
+Qed.
+Lemma ex_no_error : no_error ex_c ex_ps.
+Proof. intros n. ex_cases n; [reflexivity ..|]. destruct (ex_tail n) as [_ E2]. rewrite E2. reflexivity. Qed.
+Lemma ex_fair : fair ex_c ex_g (init ex_g) ex_ps.
+Proof.
+  intros n. ex_cases n; intros H.
+  - exfalso. apply H. vm_compute. reflexivity.
+  - exists 1. split; [lia|vm_compute; reflexivity].
+  - exists 2. split; [lia|vm_compute; reflexivity].
+  - exists 3. split; [lia|vm_compute; reflexivity].
+  - exists 4. split; [lia|vm_compute; reflexivity].
+  - exfalso. apply H. vm_compute. reflexivity.
+  - exfalso. apply H. destruct (ex_tail n) as [E1 _]. rewrite E1. vm_compute. reflexivity.
+Qed.
+Lemma ex_quiet : quiet ex_c ex_g ex_ps.
+Proof.
+  exists 2. intros m Hm. ex_cases m; [lia | lia | reflexivity ..|].
+  destruct (ex_tail m) as [_ E2]. rewrite E2. reflexivity.
+Qed.
+Lemma ex_not_quiet_before : noisy ex_c ex_g (ex_ps 1) = true.
+Proof. reflexivity. Qed.
+Lemma ex_statuses :
+  map (status_at ex_c ex_g (init ex_g) ex_ps) (seq 0 5) = [SRUNNING; SRUNNING; SRUNNING; SRUNNING; SFINISHED] /\
+  map (fun n => Phi ex_g (ex_state n)) (seq 0 6) = [7; 5; 5; 4; 1; 0].
+Proof. vm_compute. split; reflexivity. Qed.
+
+(** * Part I: the statements for reachable states *)
+Theorem terminates_reachable c g s ps : WF g -> reach_st c g s ->
+  valid_stream c g s ps -> no_error c ps -> fair c g s ps -> quiet c g ps ->
+  exists n, status_at c g s ps n <> SRUNNING.
+Proof.
+  intros W R V NE F Q. destruct (reach_st_inv c g s W R) as (I & T & L & _).
+  eapply terminates; eauto.
+Qed.
+
+Theorem productive_bound_reachable c g s ps n : WF g -> reach_st c g s -> completion_gen g s = SRUNNING ->
+  valid_stream c g s ps -> no_error c ps ->
+  (forall m, m < n -> noisy c g (ps m) = false /\ status_at c g s ps m = SRUNNING) ->
+  count_productive c g s ps n + Phi g (state_at c g s ps n) <= Phi g s.
+Proof.
+  intros W R C V NE H. destruct (reach_st_inv c g s W R) as (I & T & L & _).
+  eapply productive_bound; eauto.
+Qed.
+
+Theorem no_deadlock_reachable c g s p : WF g -> reach_st c g s -> valid_pin s p = true ->
+  inprog s = [] -> completion_gen g s = SRUNNING -> aborts c p = false ->
+  Phi g (fst (poll c g s p)) < Phi g s.
+Proof.
+  intros W R V Hi C A. destruct (reach_st_inv c g s W R) as (I & T & L & _).
+  apply poll_phi_lt_idle; auto.
+Qed.
+
+Theorem phi_decreases_reachable c g s p : WF g -> reach_st c g s -> valid_pin s p = true -> noisy c g p = false ->
+  Phi g (fst (poll c g s p)) <= Phi g s /\
+  (delivers_terminal c s p = true -> Phi g (fst (poll c g s p)) < Phi g s) /\
+  (inprog s = [] -> completion_gen g s = SRUNNING -> aborts c p = false -> Phi g (fst (poll c g s p)) < Phi g s).
+Proof.
+  intros W R V Q. destruct (reach_st_inv c g s W R) as (I & T & L & _). splits.
+  - apply poll_phi_le. eapply quiet_no_hw; eauto.
+  - intros D. apply poll_phi_lt_report; auto; [eapply quiet_no_hw; eauto | eapply quiet_terminal_productive; eauto].
+  - intros. apply poll_phi_lt_idle; auto.
+Qed.
+
+Lemma ex_reach : reach_st ex_c ex_g (init ex_g).
+Proof. constructor. Qed.
